@@ -87,6 +87,10 @@ struct SendSpec {
 	cltv: CltvSpec,
 	/// pay a keysend hash like an invoice (no preimage in the onion)
 	as_invoice: bool,
+	/// a further part of the previous send: registration, secret, total, metadata and TLVs are taken from
+	/// it, only channel, amount and CLTV are this send's own (what an honest multi-part sender does)
+	#[serde(default)]
+	like_last: bool,
 }
 
 #[derive(Clone, Debug, Serialize, Deserialize)]
@@ -169,10 +173,10 @@ fn send_strat() -> impl Strategy<Value = SendSpec> {
 			1 => Just(SecretSpec::None),
 		],
 		prop_oneof![
-			12 => Just(TotalSpec::Min),
-			3 => prop_oneof![Just(-1i64), Just(1), Just(1000), -5000i64..5000].prop_map(TotalSpec::Plus),
-			1 => (2u8..4).prop_map(TotalSpec::Times),
-			1 => amount_strat().prop_map(TotalSpec::Abs),
+			48 => Just(TotalSpec::Min),
+			12 => prop_oneof![Just(-1i64), Just(1), Just(1000), -5000i64..5000].prop_map(TotalSpec::Plus),
+			4 => (2u8..4).prop_map(TotalSpec::Times),
+			4 => amount_strat().prop_map(TotalSpec::Abs),
 			1 => Just(TotalSpec::Zero),
 		],
 		prop_oneof![
@@ -191,8 +195,9 @@ fn send_strat() -> impl Strategy<Value = SendSpec> {
 			3 => (0u8..60).prop_map(CltvSpec::Far),
 		],
 		proptest::bool::weighted(0.1),
+		proptest::bool::weighted(0.35),
 	)
-		.prop_map(|((chan, reg), amt, secret, total, meta, tlvs, cltv, as_invoice)| {
+		.prop_map(|((chan, reg), amt, secret, total, meta, tlvs, cltv, as_invoice, like_last)| {
 			let own = |r: u16| if r == u16::MAX { reg } else { r };
 			let secret = match secret {
 				SecretSpec::Of(r) => SecretSpec::Of(own(r)),
@@ -204,7 +209,7 @@ fn send_strat() -> impl Strategy<Value = SendSpec> {
 				MetaSpec::Plain(r) => MetaSpec::Plain(own(r)),
 				o => o,
 			};
-			SendSpec { chan, reg, amt, secret, total, meta, tlvs, cltv, as_invoice }
+			SendSpec { chan, reg, amt, secret, total, meta, tlvs, cltv, as_invoice, like_last }
 		})
 }
 
@@ -218,7 +223,7 @@ fn step_strat() -> impl Strategy<Value = Step> {
 		8 => (any::<u16>(), -3i8..=2).prop_map(|(reg, k)| Step::MineToDeadline { reg, k }),
 		12 => (any::<u16>(), proptest::bool::weighted(0.3)).prop_map(|(reg, known_tlvs)| Step::Claim { reg, known_tlvs }),
 		3 => any::<u16>().prop_map(|reg| Step::FailBack { reg }),
-		2 => any::<u16>().prop_map(|chan| Step::ForceClose { chan }),
+		3 => any::<u16>().prop_map(|chan| Step::ForceClose { chan }),
 	]
 }
 
@@ -249,7 +254,7 @@ fn sweep_strat(max_probes: usize) -> impl Strategy<Value = Case> {
 		}
 		let mut steps = vec![];
 		for (secret, meta, total) in probes {
-			steps.push(Step::Send(SendSpec { chan: 0, reg: 0, amt: AmtSpec::Share(8), secret, total, meta, tlvs: vec![], cltv: CltvSpec::Normal, as_invoice: false }));
+			steps.push(Step::Send(SendSpec { chan: 0, reg: 0, amt: AmtSpec::Share(8), secret, total, meta, tlvs: vec![], cltv: CltvSpec::Normal, as_invoice: false, like_last: false }));
 			steps.push(Step::Forwards);
 			// an untampered secret with total + 1 leaves an incomplete set behind: let it time out
 			steps.push(Step::Tick);
@@ -258,7 +263,7 @@ fn sweep_strat(max_probes: usize) -> impl Strategy<Value = Case> {
 			// whatever became claimable is handed back so that the next probe starts from an empty set
 			steps.push(Step::FailBack { reg: 0 });
 		}
-		steps.push(Step::Send(SendSpec { chan: 0, reg: 0, amt: AmtSpec::Share(8), secret: SecretSpec::Of(0), total: TotalSpec::Min, meta: MetaSpec::Of(0), tlvs: vec![], cltv: CltvSpec::Normal, as_invoice: false }));
+		steps.push(Step::Send(SendSpec { chan: 0, reg: 0, amt: AmtSpec::Share(8), secret: SecretSpec::Of(0), total: TotalSpec::Min, meta: MetaSpec::Of(0), tlvs: vec![], cltv: CltvSpec::Normal, as_invoice: false, like_last: false }));
 		steps.push(Step::Forwards);
 		Case { world: WSpec { chans: vec![(0, 1_000_000)], anchors }, regs, steps, finale: 1 }
 	})
@@ -841,6 +846,7 @@ fn run_inner(c: &Case, ctx: &mut Ctx, run: &mut Run) -> CaseResult {
 		}
 	}
 	let nregs = run.model.regs.len();
+	let mut last_send: Option<SendSpec> = None;
 	for (si, step) in c.steps.iter().enumerate() {
 		if run.foreign.is_some() || run.aborted.is_some() {
 			break;
@@ -850,6 +856,15 @@ fn run_inner(c: &Case, ctx: &mut Ctx, run: &mut Run) -> CaseResult {
 				if run.model.parts.len() >= 40 {
 					continue;
 				}
+				let merged;
+				let s = match (&last_send, s.like_last) {
+					(Some(l), true) => {
+						merged = SendSpec { chan: s.chan, amt: s.amt.clone(), cltv: s.cltv.clone(), like_last: true, ..l.clone() };
+						&merged
+					},
+					_ => s,
+				};
+				last_send = Some(s.clone());
 				let Some((req, tampered, boundary)) = resolve_send(run, s) else { continue };
 				if matches!(s.total, TotalSpec::Zero) {
 					ctx.label("zero-total-sent");
